@@ -45,9 +45,65 @@ let cmd_paging args =
   let out = paging (nat_of_int (List.length l + 1)) rows (z_of_int (-1)) (nat_of_int n) in
   Printf.printf "%s\n" (String.concat "," (List.map (fun (i, ()) -> string_of_int (int_of_z i)) out))
 
+(* ---- streams ---- *)
+let n_of_int n = if n = 0 then N0 else Npos (pos_of_int n)
+let int_of_n = function N0 -> 0 | Npos p -> int_of_pos p
+let bytes_of s = List.map n_of_int (ints s)
+let parse_op s =
+  match s.[0] with
+  | 't' -> Tell
+  | 'r' -> Read (z_of_int (int_of_string (String.sub s 1 (String.length s - 1))))
+  | 's' -> (match String.split_on_char ':' (String.sub s 1 (String.length s - 1)) with
+            | [t; w] -> Seek (z_of_int (int_of_string t), z_of_int (int_of_string w))
+            | _ -> failwith "bad seek")
+  | _ -> failwith "bad op"
+let res_s = function
+  | RBytes b -> "b" ^ String.concat "." (List.map (fun x -> string_of_int (int_of_n x)) b)
+  | RPos p -> "p" ^ string_of_int (int_of_z p)
+  | RErr -> "E" | RAssert -> "A" | RNotImpl -> "N" | ROutOfFuel -> "F"
+let parts args = List.map String.trim (String.split_on_char '|' args)
+
+(* por <v0|v1> <off> <len> | pack | ops *)
+let cmd_por args =
+  match parts args with
+  | [hd; pk; ops] ->
+      (match split_on ' ' hd with
+       | [v; off; len] ->
+           let s = por_init (bytes_of pk) (z_of_int (int_of_string off)) (z_of_int (int_of_string len)) in
+           let step = if v = "v0" then por_step0 else por_step in
+           let rs = run_ops step s (List.map parse_op (split_on ' ' ops)) in
+           print_endline (String.concat ";" (List.map res_s rs))
+       | _ -> failwith "por: bad header")
+  | _ -> failwith "por: bad args"
+
+(* bio|fio content | ops *)
+let cmd_bio which args =
+  match parts args with
+  | [c; ops] ->
+      let s = { bcontent = bytes_of c; bpos = Z0 } in
+      let rs = run_ops (if which then bio_step else fio_step) s (List.map parse_op (split_on ' ' ops)) in
+      print_endline (String.concat ";" (List.map res_s rs))
+  | _ -> failwith "bio: bad args"
+
+(* zsd <lazy 0|1> <chunk> <seekchunk> | plain | oracle k:s,k:s,... (beyond the list: 0:1) | ops *)
+let cmd_zsd args =
+  match parts args with
+  | [hd; pl; orc; ops] ->
+      (match split_on ' ' hd with
+       | [lz; ch; sc] ->
+           let evs = Array.of_list (List.map (fun e -> match String.split_on_char ':' e with
+                        | [k; s] -> (z_of_int (int_of_string k), s = "1") | _ -> failwith "bad ev") (split_on ',' orc)) in
+           let orcf n = let i = int_of_nat n in if i < Array.length evs then evs.(i) else (Z0, true) in
+           let s = zsd_init (bytes_of pl) (lz = "1") in
+           let fuel = nat_of_int 100000 in
+           let step = zsd_step orcf (z_of_int (int_of_string ch)) (z_of_int (int_of_string sc)) fuel in
+           let rs = run_ops step s (List.map parse_op (split_on ' ' ops)) in
+           print_endline (String.concat ";" (List.map res_s rs))
+       | _ -> failwith "zsd: bad header")
+  | _ -> failwith "zsd: bad args"
+
 let () =
-  let extra = ref [] in
-  Driver_ext.register extra;
+  let extra = ref [("por", cmd_por); ("bio", cmd_bio true); ("fio", cmd_bio false); ("zsd", cmd_zsd)] in
   try
     while true do
       let line = input_line stdin in
